@@ -20,6 +20,7 @@ import functools
 import inspect
 import itertools
 import os
+import random
 import warnings
 from concurrent.futures import ThreadPoolExecutor
 
@@ -37,6 +38,54 @@ EXCL = 7            # placeholder sent for excluded calls
 # instance __dict__ and are copied from the other translator).  Counted in the
 # evidence; reported as violation C12:wraps-bound-copy only when this is True.
 REPORT_WRAPS_BOUND = True
+# Instance access of a STACK of decorators with a start= / end= layer can fail
+# on the unchanged tree: the Combination of getters runs the outer getter on the
+# plain bound method first (an outer end= form then selects parameters an inner
+# layer made keyword-only: "both kinds"), and an inner start= / end= getter then
+# re-runs its selection on the translator the outer getter built, where the
+# parameters are already moved ("'c' not found").
+# Reported as C12:stack-bound-rerun only when this is True.
+REPORT_STACK_BOUND = True
+
+
+# ---------------------------------------------------------------- argument values
+class _AlwaysEq(object):
+    """A falsy object that compares equal to everything."""
+    __hash__ = None
+
+    def __eq__(self, other):
+        return True
+
+    def __ne__(self, other):
+        return False
+
+    def __bool__(self):
+        return False
+
+    __nonzero__ = __bool__
+
+    def __repr__(self):
+        return 'ALWAYS_EQ'
+
+
+ALWAYS_EQ = _AlwaysEq()
+# Values an implementation could mistake for "not given" / "no default": the
+# property promises delivery of EVERY argument.  Identified by identity.
+SPECIALS = [None, inspect.Parameter.empty, 0, False, '', NotImplemented,
+            getattr(sigtools._util, 'UNSET', Ellipsis), ALWAYS_EQ]
+SPECIAL_NAMES = ['None', 'inspect.Parameter.empty', '0', 'False', "''", 'NotImplemented',
+                 'sigtools._util.UNSET', 'ALWAYS_EQ (a falsy object equal to everything)']
+SPECIAL_BASE = 400          # special number i is interned as 400 + i for the model
+VALUE_SEED = [0]            # set from ctx.rng in run()
+
+
+def vnum(v):
+    for i, sp in enumerate(SPECIALS):
+        if v is sp:
+            return SPECIAL_BASE + i
+    if type(v) is int:
+        return v
+    return SELFVAL
 
 
 # ---------------------------------------------------------------- functions
@@ -111,8 +160,17 @@ def describe_params(sig):
 # ('S', start, names0)       kwoargs(start=..., *names0)
 # ('E', end, names0)         posoargs(end=..., *names0)
 # ('A', exceptions)          autokwoargs(exceptions=...)
-def show_form(form):
+# ('K', inner, outer)        outer(inner(f)): a stack of two decorators; inner may be a stack itself
+def show_form(form, arg='f'):
+    return _show_form(form).replace('(f)', '(%s)' % arg)
+
+
+def _show_form(form):
     n = lambda l: ', '.join(repr(name_of(x)) for x in l)  # noqa: E731
+    if form[0] == 'K':
+        inner = _show_form(form[1])
+        outer = _show_form(form[2])
+        return outer[:-3] + '(' + inner + ')'
     if form[0] == 'X':
         p, k, o = form[1], form[2], form[3]
         if o == 1:
@@ -134,6 +192,9 @@ def show_form(form):
 def decorator_for(form):
     """The decorator OBJECT of a form (it can be applied to several functions)."""
     nm = lambda l: [name_of(x) for x in l]  # noqa: E731
+    if form[0] == 'K':
+        di, do = decorator_for(form[1]), decorator_for(form[2])
+        return lambda f: do(di(f))
     if form[0] == 'X':
         p, k, o = nm(form[1]), nm(form[2]), form[3]
         if o == 1:
@@ -206,9 +267,75 @@ def forms_for(ps, rng, full):
     return out
 
 
+def simple_pool(ps):
+    """Single decorators over the regular parameters of ps (layers of a stack)."""
+    pk = [p[0] for p in ps if p[1] == 'PK']
+    pool = []
+    for r in (1, 2):
+        for c in itertools.combinations(pk, r):
+            pool.append(('X', c, (), 0))
+            pool.append(('X', (), c, 0))
+    for x in pk:
+        pool.append(('S', x, ()))
+        pool.append(('E', x, ()))
+    dflt = [p[0] for p in ps if p[1] == 'PK' and p[2] is not None]
+    pool.append(('A', ()))
+    for x in dflt:
+        pool.append(('A', (x,)))
+    return pool
+
+
+_STACK_CACHE = {}
+
+
+def stack_classes(ps):
+    """Two-layer stacks over simple_pool(ps) whose inner layer alone is an
+    admissible, non-empty selection, by what the property says about them:
+      both : each layer alone is admissible for f, together they mark a parameter with both kinds
+      bad  : inadmissible for another reason
+      ok   : admissible, and the outer layer selects something"""
+    if ps in _STACK_CACHE:
+        return _STACK_CACHE[ps]
+    pool = simple_pool(ps)
+    both, bad, ok = [], [], []
+    for inner in pool:
+        r1 = spec_stack(ps, inner)
+        if r1 is None or not (r1[0] or r1[1]):
+            continue
+        for outer in pool:
+            fm = ('K', inner, outer)
+            r = spec_stack(ps, fm)
+            sel2 = spec_select(r1[2], outer)
+            if r is not None:
+                if sel2[0] or sel2[1]:
+                    ok.append(fm)
+                continue
+            alone = spec_decorate(ps, outer)
+            if sel2 is not None and alone is not None and ((r1[0] | sel2[0]) & (r1[1] | sel2[1])):
+                both.append(fm)
+            else:
+                bad.append(fm)
+    _STACK_CACHE[ps] = (both, bad, ok, pool)
+    return _STACK_CACHE[ps]
+
+
+def stack_forms_for(ps, rng, quick):
+    both, bad, ok, pool = stack_classes(ps)
+    nb, nbad, nok, n3 = (3, 1, 3, 1) if quick else (8, 3, 8, 3)
+    out = rng.sample(both, min(nb, len(both))) + rng.sample(bad, min(nbad, len(bad))) \
+        + rng.sample(ok, min(nok, len(ok)))
+    # three layers: a third decorator on top of an admissible stack
+    for fm in rng.sample(ok, min(n3, len(ok))):
+        out.append(('K', fm, rng.choice(pool)))
+    return out
+
+
 # ---------------------------------------------------------------- independent spec (written from the property)
 def spec_select(ps, form):
     """(posos, kwos) as sets, or None when the decorator must raise ValueError."""
+    if form[0] == 'K':
+        r = spec_stack(ps, form)
+        return None if r is None else (r[0], r[1])
     pk = [p for p in ps if p[1] == 'PK']
     pkn = [p[0] for p in pk]
     if form[0] == 'X':
@@ -254,7 +381,62 @@ def spec_advertised(ps, posos, kwos):
     return tuple(body + moved + tail)
 
 
+SPEC_DISAGREE = []
+
+
+def spec_stack(ps, form):
+    """(posos, kwos, advertised) of a decorator stack, or None when decorating
+    must raise ValueError.  The outer decorator's start= / end= / exceptions=
+    selection is taken on what it decorates (the inner result); the selections
+    of all layers together are then ONE selection of the original function:
+    every rule for inadmissible selections applies to the combined one."""
+    if form[0] != 'K':
+        adv = spec_decorate(ps, form)
+        if adv is None:
+            return None
+        sel = spec_select(ps, form)
+        return sel[0], sel[1], adv
+    r1 = spec_stack(ps, form[1])
+    if r1 is None:
+        return None
+    p1, k1, adv1 = r1
+    sel2 = spec_select(adv1, form[2])
+    if sel2 is None:
+        return None
+    seq = spec_advertised(adv1, sel2[0], sel2[1])          # the outer layer alone, on what it decorates
+    posos, kwos = p1 | sel2[0], k1 | sel2[1]
+    uni = spec_advertised(ps, posos, kwos)                 # the combined selection, on the original
+    if (seq is None) != (uni is None):
+        SPEC_DISAGREE.append((ps, form))
+    if seq is None or uni is None:
+        return None
+    return posos, kwos, uni
+
+
+def form_parts(form):
+    """The non-stack forms of a form, innermost first."""
+    if form[0] == 'K':
+        return form_parts(form[1]) + form_parts(form[2])
+    return [form]
+
+
+def names_first(form, first):
+    """Does the decorator text itself name the parameter `first`?"""
+    for fm in form_parts(form):
+        if fm[0] in 'XA' or fm[1] == first or first in fm[2]:
+            return True
+    return False
+
+
+def inner_rerun(form):
+    """A stack with a start= / end= form among its layers."""
+    return form[0] == 'K' and any(fm[0] in 'SE' for fm in form_parts(form))
+
+
 def spec_decorate(ps, form):
+    if form[0] == 'K':
+        r = spec_stack(ps, form)
+        return None if r is None else r[2]
     sel = spec_select(ps, form)
     if sel is None:
         return None
@@ -290,16 +472,49 @@ def calls_for(maxpos, knames):
 
 
 def call_args(call):
+    """call = (n, ks): distinguishable values; (n, ks, pv, kv): value number j of
+    the positional / named arguments is SPECIALS[pv[j]] / SPECIALS[kv[j]] unless
+    that index is negative."""
+    if len(call) == 4:
+        n, ks, pv, kv = call
+        return ([200 + j if pv[j] < 0 else SPECIALS[pv[j]] for j in range(n)],
+                {name_of(k): (300 + k if kv[i] < 0 else SPECIALS[kv[i]]) for i, k in enumerate(ks)})
     n, ks = call
     return [200 + j for j in range(n)], {name_of(k): 300 + k for k in ks}
 
 
-def canon_result(res, order):
-    """dict name -> value  ->  tuple of (name id, tagged value) in `order`."""
+def vcalls_for(calls, vrng):
+    """For every call shape: (1) every named argument is None; (2) a random
+    non-empty subset of the arguments carries random special values."""
+    out = []
+    ns = len(SPECIALS)
+    for n, ks in calls:
+        if ks:
+            out.append((n, ks, (-1,) * n, (0,) * len(ks)))
+        m = n + len(ks)
+        if m:
+            pick = [vrng.randrange(ns) if vrng.random() < 0.5 else -1 for _ in range(m)]
+            if all(x < 0 for x in pick):
+                pick[vrng.randrange(m)] = vrng.randrange(ns)
+            out.append((n, ks, tuple(pick[:n]), tuple(pick[n:])))
+    return out
+
+
+def canon_result(res, order, values=False):
+    """dict name -> value  ->  tuple of (name id, tagged value) in `order`.
+    values=True: every value goes through vnum (special values by identity,
+    exact ints, anything else SELFVAL)."""
     out = []
     for nm in order:
         v = res[name_of(nm)]
-        if isinstance(v, tuple):
+        if values:
+            if type(v) is tuple:
+                out.append((nm, ('T', tuple(vnum(x) for x in v))))
+            elif type(v) is dict:
+                out.append((nm, ('D', tuple((id_of_name(k), vnum(x)) for k, x in v.items()))))
+            else:
+                out.append((nm, ('V', vnum(v))))
+        elif isinstance(v, tuple):
             out.append((nm, ('T', tuple(v))))
         elif isinstance(v, dict):
             out.append((nm, ('D', tuple((id_of_name(k), x) for k, x in v.items()))))
@@ -417,7 +632,7 @@ def check_case(ps, form, bound, rep, stats, only_call=None, defer=None, getter=N
     if self_selected:
         # the selection names the parameter that instance access binds
         stats['self_selected'] += 1
-        named_self = form[0] in 'XA' or form[1] == ps[0][0] or ps[0][0] in form[2]
+        named_self = names_first(form, ps[0][0])
         if adv is None and not named_self:
             # start= / end= forms rerun their selection on the bound method
             rep.violation('C12:bound-rerun', '%s: accessing the method on an instance raises ValueError although the '
@@ -459,22 +674,31 @@ def check_case(ps, form, bound, rep, stats, only_call=None, defer=None, getter=N
     order = [p[0] for p in ps]
     maxpos, knames = case_calls(ps, bound)
     results = []
-    for call in (calls_for(maxpos, knames) if only_call is None else [only_call]):
+    vresults = []
+    shapes = calls_for(maxpos, knames)
+    if only_call is not None:
+        plan = [only_call]
+    else:
+        vrng = random.Random('%r|%r|%r|%r' % (VALUE_SEED[0], ps, form, bound))
+        plan = shapes + vcalls_for(shapes, vrng)
+    for call in plan:
+        values = len(call) == 4
+        dest = vresults if values else results
         if excluded(adv, call):
             stats['excluded_calls'] += 1
-            results.append(EXCL)
+            dest.append((call, EXCL) if values else EXCL)
             continue
-        stats['calls'] += 1
+        stats['value_calls' if values else 'calls'] += 1
         try:
             r = really_call(g, call)
         except Exception as e:  # noqa: BLE001
             rep.violation('C12:exception', '%s: call %s raised %s: %s' % (what0, show_callv(call), type(e).__name__, e),
-                          dict(rdict, call=[call[0], list(call[1])]))
-            results.append(EXCL)
+                          dict(rdict, call=_call_to(call)))
+            dest.append((call, EXCL) if values else EXCL)
             continue
         o = really_call(native, call)
-        cr = None if r is None else canon_result(r, order)
-        co = None if o is None else canon_result(o, order)
+        cr = None if r is None else canon_result(r, order, values)
+        co = None if o is None else canon_result(o, order, values)
         if cr is None:
             stats['typeerror'] += 1
         if cr != co:
@@ -487,21 +711,47 @@ def check_case(ps, form, bound, rep, stats, only_call=None, defer=None, getter=N
                 what = '%s: call %s delivers %s, but the advertised signature %s binds %s' % (
                     what0, show_callv(call), show_canon(cr), show_ps(adv), show_canon(co))
                 key = 'C12:routing'
-            rep.violation(key, what, dict(rdict, call=[call[0], list(call[1])]))
-        results.append(encode(cr))
-    return (adv, results)
+            if values:
+                key += '-value'
+            rep.violation(key, what, dict(rdict, call=_call_to(call)))
+        dest.append((call, encode(cr)) if values else encode(cr))
+    return (adv, results, vresults)
+
+
+def _call_to(call):
+    return [list(x) if isinstance(x, tuple) else x for x in call]
+
+
+def _call_from(l):
+    return tuple(tuple(x) if isinstance(x, list) else x for x in l)
+
+
+def vresults_of(r):
+    return r[2] if r is not None and len(r) > 2 else []
+
+
+def _show_value(v):
+    for i, sp in enumerate(SPECIALS):
+        if v is sp:
+            return SPECIAL_NAMES[i]
+    return str(v)
 
 
 def show_callv(call):
     a, k = call_args(call)
-    return 'f(%s)' % ', '.join([str(x) for x in a] + ['%s=%d' % kv for kv in k.items()])
+    return 'f(%s)' % ', '.join([_show_value(x) for x in a] + ['%s=%s' % (n, _show_value(v)) for n, v in k.items()])
 
 
 def show_canon(c):
     out = []
+    sv = lambda x: SPECIAL_NAMES[x - SPECIAL_BASE] if (type(x) is int and SPECIAL_BASE <= x < SPECIAL_BASE + len(SPECIALS)) else x  # noqa: E731
     for nm, (tag, v) in c:
         if tag == 'D':
-            v = {name_of(k): x for k, x in v}
+            v = {name_of(k): sv(x) for k, x in v}
+        elif tag == 'T':
+            v = tuple(sv(x) for x in v)
+        else:
+            v = sv(v)
         out.append('%s=%s' % (name_of(nm), v))
     return ', '.join(out)
 
@@ -868,6 +1118,57 @@ Definition run_bind (ci : N) (c : tcase) : list N :=
   map (fun j => ci * 1000 + j) (diff_idx 0 got (c_expect c)).
 Fixpoint run_all_bind (ci : N) (cs : list tcase) : list N :=
   match cs with [] => [] | c :: cs' => run_bind ci c ++ run_all_bind (ci + 1) cs' end.
+(* stacks of decorators: the outer layer selects on what the inner one advertises,
+   _merge_other unites the name sets, _prepare runs on the original parameters *)
+Inductive sform := SBase (f : form) (order : nat) | SStack (inner : sform) (outer : form).
+Fixpoint stack_decorate (ps : list param) (sf : sform)
+  : res (list param * list (nat * param) * list name * list name) :=
+  match sf with
+  | SBase f order =>
+      do r <- model_decorate false ps f order ;;
+      do pk <- select ps f ;;
+      Ok (fst (fst r), snd (fst r), fst pk, snd pk)
+  | SStack i o =>
+      do r1 <- stack_decorate ps i ;;
+      let '(adv1, kp1, p1, k1) := r1 in
+      do pk <- select adv1 o ;;
+      match fst pk, snd pk with
+      | [], [] => Ok r1
+      | p2, k2 =>
+          let pk' := merge_other p2 k2 p1 k1 in
+          do r <- prepare ps (fst pk') (snd pk') ;;
+          Ok (fst r, snd r, fst pk', snd pk')
+      end
+  end.
+(* cases with an explicit call list (argument values given, not generated) *)
+Record gcase := mkG { g_bound : bool; g_ps : list param; g_sf : sform; g_sig : option (list param);
+                      g_calls : list (list N * kwargs); g_expect : list N }.
+Definition g_decorate (c : gcase) : res (list param * list (nat * param) * list name) :=
+  match g_sf c with
+  | SBase f order => model_decorate (g_bound c) (g_ps c) f order
+  | sf => if g_bound c then Err (OtherErr 77)
+          else do r <- stack_decorate (g_ps c) sf ;;
+               let '(adv, kp, p, _) := r in Ok (adv, kp, p)
+  end.
+Definition run_gcase (ci : N) (c : gcase) : list N :=
+  match g_decorate c, g_sig c with
+  | Err ValueErr, None => []
+  | Ok (adv, kp, posos), Some s =>
+      if param_list_eqb adv s then
+        let pre := if g_bound c then [999] else [] in
+        let got := map (fun ak =>
+                     if excluded adv (snd ak) then 7
+                     else enc_res (match pok_call kp posos (fst ak) (snd ak) with
+                                   | Ok (a', k') => bindv (g_ps c) (pre ++ a') k'
+                                   | Err _ => None
+                                   end))
+                   (g_calls c) in
+        map (fun j => ci * 1000 + j) (diff_idx 0 got (g_expect c))
+      else [ci * 1000 + 999]
+  | _, _ => [ci * 1000 + 999]
+  end.
+Fixpoint run_all_g (ci : N) (cs : list gcase) : list N :=
+  match cs with [] => [] | c :: cs' => run_gcase ci c ++ run_all_g (ci + 1) cs' end.
 '''
 
 
@@ -902,9 +1203,34 @@ def coq_case(ps, form, bound, adv, results):
         maxpos, coq_names(knames), coq_names(results))
 
 
+def coq_sform(form):
+    if form[0] == 'K':
+        return '(SStack %s %s)' % (coq_sform(form[1]), coq_form(form[2]))
+    return '(SBase %s %d%%nat)' % (coq_form(form), form[3] if form[0] == 'X' else 0)
+
+
+def coq_gcase(ps, form, bound, adv, results, vpairs):
+    """results (of calls_for) may be None: only the calls with values are compared."""
+    maxpos, knames = case_calls(ps, bound)
+    calls = []
+    expect = []
+    for call, enc in vpairs:
+        a, k = call_args(call)
+        calls.append('(%s, %s)' % (coq_names([vnum(x) for x in a]),
+                                   coqrun.coq_list(['(%d, %d)' % (id_of_name(n), vnum(v)) for n, v in k.items()])))
+        expect.append(enc)
+    cl = coqrun.coq_list(calls)
+    if adv is not None and results:
+        cl = '(calls_for %d%%nat %s ++ %s)' % (maxpos, coq_names(knames), cl)
+        expect = list(results) + expect
+    return 'mkG %s %s %s %s %s %s' % (
+        'true' if bound else 'false', coq_params(ps), coq_sform(form),
+        'None' if adv is None else '(Some %s)' % coq_params(adv), cl, coq_names(expect))
+
+
 def run_model(shard, fn='run_all'):
     """shard: list of Coq tcase terms -> list of (case index, call index)."""
-    pre = PREAMBLE + '\nDefinition cases : list tcase := %s.\n' % coqrun.coq_list(shard)
+    pre = PREAMBLE + '\nDefinition cases : list %s := %s.\n' % ('gcase' if fn == 'run_all_g' else 'tcase', coqrun.coq_list(shard))
     ans = coqrun.coq_eval(pre, ['%s 0 cases' % fn], timeout=600)
     nums = coqrun.parse_nat_list(ans[0])
     return [(x // 1000, x % 1000) for x in nums]
@@ -939,34 +1265,76 @@ def run(ctx, rep):
     rng = ctx.rng('forms')
     srng = ctx.rng('model-sample')
     fns = gen_functions(ctx)
-    stats = dict.fromkeys(['decorated', 'calls', 'excluded_calls', 'typeerror', 'valueerror', 'self_selected'], 0)
+    stats = dict.fromkeys(['decorated', 'calls', 'value_calls', 'excluded_calls', 'typeerror', 'valueerror', 'self_selected'], 0)
     formkinds = {}
     model_cases = []      # (ps, form, bound, adv, results)
     deferred = []         # the finding of the unchanged tree is reported after everything else
     budget = 2200 if ctx.quick else 9000
     total_guess = len(fns) * 50
+    krng = ctx.rng('stacks')
+    grng = ctx.rng('model-sample-2')
+    VALUE_SEED[0] = ctx.rng('values').random()
+    gcases = []           # (ps, form, bound, adv, results or None, [(call with values, result)])
+    grate = 0.03 if ctx.quick else 0.01
+    krate = 0.15 if ctx.quick else 0.05
+    nstack = {'both_kinds_by_union': 0, 'other_inadmissible': 0, 'admissible': 0, 'bound': 0,
+              'bound_with_start_end_layer': 0, 'bound_with_start_end_layer_failing': 0}
     for ps in fns:
         full = len(ps) <= 3 or not ctx.quick
-        for form in forms_for(ps, rng, full):
+        kforms = stack_forms_for(ps, krng, ctx.quick) if any(p[1] == 'PK' for p in ps) else []
+        for form in forms_for(ps, rng, full) + kforms:
+            isk = form[0] == 'K'
             for bound in (False, True):
                 if bound and not (ps and ps[0][1] in ('PO', 'PK')):
                     continue
+                if isk:
+                    sel = spec_select(ps, form)
+                    if not bound:
+                        if sel is not None:
+                            nstack['admissible'] += 1
+                        elif form in stack_classes(ps)[0]:
+                            nstack['both_kinds_by_union'] += 1
+                        else:
+                            nstack['other_inadmissible'] += 1
+                    else:
+                        # instance access: decided for admissible stacks that do not select the first parameter
+                        if sel is None or ps[0][0] in sel[0] or ps[0][0] in sel[1]:
+                            continue
+                        nstack['bound'] += 1
+                        if inner_rerun(form):
+                            # see REPORT_STACK_BOUND
+                            nstack['bound_with_start_end_layer'] += 1
+                            probe = _Rep()
+                            check_case(ps, form, True, probe, dict.fromkeys(stats, 0))
+                            if probe.found:
+                                nstack['bound_with_start_end_layer_failing'] += 1
+                                if REPORT_STACK_BOUND and len([v for v in deferred if v[0] == 'C12:stack-bound-rerun']) < 3:
+                                    deferred.append(('C12:stack-bound-rerun', probe.found[0][1],
+                                                     {'ps': [list(p) for p in ps], 'form': _form_to(form), 'bound': True}))
+                            continue
                 r = check_case(ps, form, bound, rep, stats, defer=deferred)
                 formkinds[form[0]] = formkinds.get(form[0], 0) + 1
                 if r is None or r[0] == 'skip':
-                    if r is not None:
+                    if r is not None and not isk:
                         # still compare the model's answer for the attribute access
                         if srng.random() < budget / float(total_guess):
                             model_cases.append((ps, form, bound, r[1], None))
                     continue
-                adv, results = r
-                key = (tuple((p[1], p[2] is not None) for p in ps), form[0],
-                       tuple(sorted(form[1])) if form[0] != 'X' and not isinstance(form[1], int) else (),
-                       bound, adv is None)
+                adv, results = r[0], r[1]
                 if adv is None or adv != (drop_first(ps) if bound else ps):
                     rep.distinct.add((ps, form, bound))
+                vres = vresults_of(r)
+                if isk:
+                    # the model of stacks (merge_other + prepare) covers direct use
+                    if not bound and grng.random() < krate:
+                        gcases.append((ps, form, bound, adv, results, grng.sample(vres, min(12, len(vres)))))
+                    continue
                 if srng.random() < (2.0 if adv is not None else 0.5) * budget / float(total_guess):
                     model_cases.append((ps, form, bound, adv, results))
+                if vres and grng.random() < grate:
+                    gcases.append((ps, form, bound, adv, None, grng.sample(vres, min(12, len(vres)))))
+    rep.coverage['stacked_decorators'] = nstack
+    rep.coverage['stack_spec_union_vs_layerwise_disagree'] = len(SPEC_DISAGREE)
     # ---- the same function object behind several translators
     shrng = ctx.rng('shared')
     nshared = 0
@@ -1067,6 +1435,23 @@ def run(ctx, rep):
             rep.corr_break('pok_call + bindv vs really calling the decorated function', inp,
                            'differs (model) on %s' % (show_callv(call) if call else 'call family length'),
                            results[j] if call else len(results))
+    # ---- model correspondence for stacks and for calls carrying special values
+    gdiffs = run_model_sharded([coq_gcase(*c) for c in gcases], 'run_all_g')
+    for ci, j in gdiffs[:20]:
+        ps, form, bound, adv, results, vpairs = gcases[ci]
+        inp = '%s with f%s%s' % (show_form(form), show_ps(ps), ' (bound)' if bound else '')
+        if j == 999:
+            rep.corr_break('decorate (stacks: merge_other + prepare): advertised signature / ValueError', inp,
+                           'differs (model)', 'ValueError' if adv is None else show_ps(adv))
+        else:
+            maxpos, knames = case_calls(ps, bound)
+            calls = (calls_for(maxpos, knames) if results else []) + [c for c, _ in vpairs]
+            call = calls[j] if j < len(calls) else None
+            rep.corr_break('pok_call + bindv vs really calling the decorated function (explicit values)', inp,
+                           'differs (model) on %s' % (show_callv(call) if call else 'call family length'),
+                           (list(results or []) + [e for _, e in vpairs])[j] if call else len(calls))
+    rep.coverage['model_cases_in_coq_stacks_and_values'] = len(gcases)
+    rep.coverage['model_calls_in_coq_stacks_and_values'] = sum(len(c[4] or []) + len(c[5]) for c in gcases)
     # ---- the binder alone against CPython
     bterms = []
     bfns = fns[::max(1, len(fns) // (250 if ctx.quick else 1500))]
@@ -1146,10 +1531,10 @@ def replay(ctx, data):
     ps = tuple(tuple(p) for p in r['ps'])
     form = _form_from(r['form'])
     rp = _Rep()
-    stats = dict.fromkeys(['decorated', 'calls', 'excluded_calls', 'typeerror', 'valueerror', 'self_selected'], 0)
+    stats = dict.fromkeys(['decorated', 'calls', 'value_calls', 'excluded_calls', 'typeerror', 'valueerror', 'self_selected'], 0)
     call = None
     if 'call' in r:
-        call = (r['call'][0], tuple(r['call'][1]))
+        call = _call_from(r['call'])
     if 'shared' in r:
         check_case(ps, form, r['bound'], rp, stats, only_call=call, getter=build_shared(ps, r['shared'], form), shared=r['shared'])
     else:
